@@ -20,6 +20,9 @@ structure Cur where
 
 def Cur.remaining (c : Cur) : Nat := c.data.length - c.pos
 
+/-- `a - b` on `usize` as the harness builds it (overflow checks on): `none` = the subtraction panics -/
+def usub (a b : Nat) : Option Nat := if b ≤ a then some (a - b) else none
+
 /-- `parse_u8` -/
 def Cur.u8 (c : Cur) : Outcome (Nat × Cur) :=
   match c.data[c.pos]? with
@@ -81,7 +84,10 @@ def capContent (typ len start : Nat) (c : Cur) : Outcome Cur :=
   | 68 | 131 =>                                        -- (Prestandard)Multisession: len ≠ 0; u8, then `0..len-1` x u8
     if len = 0 then .err else
     match c.advance 1 with
-    | .ok c => c.advance (len - 1)
+    | .ok c =>
+      match usub len 1 with                            -- `len-1` on usize (overflow checks on)
+      | some k => c.advance k
+      | none => .panic
     | .err => .err
     | .panic => .panic
   | 69 =>                                              -- AddPath
@@ -229,7 +235,10 @@ def openParseCur (c0 : Cur) : Outcome Cur :=
         if opl > c.remaining then .err else
         match paramLoop (opl + 1) opl c with
         | .ok c =>
-          if c.pos - start ≠ hlen then .err else
+          match usub c.pos start with                  -- `end - pos` on usize (overflow checks on)
+          | none => .panic
+          | some consumed =>
+          if consumed ≠ hlen then .err else
           match c0.seek start with
           | .ok c => c.advance hlen
           | .err => .err
